@@ -514,9 +514,19 @@ func randValue(format string, min, max interface{}, rnd *rand.Rand) interface{} 
 		}
 		return float64(int((lo+rnd.Float64()*(hi-lo))*10)) / 10
 	case format == characteristic.FormatString:
-		return randWord(rnd)
+		return randText(rnd)
 	}
 	return nil
+}
+
+// randText: mostly a word; every fourth value has a length around the sizes string metadata speaks of (the default
+// maximum length of 64 bytes, the largest announced one of 256) or is empty
+func randText(rnd *rand.Rand) string {
+	if rnd.Intn(4) > 0 {
+		return randWord(rnd)
+	}
+	n := []int{0, 1, 63, 64, 65, 100, 255, 256, 257, 1000}[rnd.Intn(10)]
+	return strings.Repeat(randWord(rnd)+" ", n/3+1)[:n]
 }
 
 func randCharSpec(rnd *rand.Rand) CharSpec {
@@ -1066,18 +1076,26 @@ func mutate(r *Recipe, kind string, rnd *rand.Rand) (m mutation, ok bool) {
 		}
 		old := r.Accs[ai].Name
 		r.Accs[ai].Name = randWord(rnd) + " renamed"
+		if rnd.Intn(4) == 0 {
+			r.Accs[ai].Name += strings.Repeat(" and again", []int{6, 7, 26, 100}[rnd.Intn(4)])
+		}
 		m.Detail = fmt.Sprintf("accessory at position %d: name %q -> %q", ai, old, r.Accs[ai].Name)
 		return m, true
 	case "info-changed":
 		ai := pickAcc()
 		a := &r.Accs[ai]
+		long := ""
+		if rnd.Intn(3) == 0 { // long texts, around the default (64) and the largest (256) maximum length of strings
+			n := []int{63, 64, 65, 100, 256, 257, 1000}[rnd.Intn(7)]
+			long = strings.Repeat(" "+randWord(rnd), n/2+1)[:n-4]
+		}
 		switch rnd.Intn(4) {
 		case 0:
-			a.Serial = "SN" + strconv.Itoa(rnd.Intn(1e9))
+			a.Serial = "SN" + strconv.Itoa(rnd.Intn(1e9)) + long
 		case 1:
-			a.Manufacturer = "maker " + strconv.Itoa(rnd.Intn(100))
+			a.Manufacturer = "maker " + strconv.Itoa(rnd.Intn(100)) + long
 		case 2:
-			a.Model = "model " + strconv.Itoa(rnd.Intn(100))
+			a.Model = "model " + strconv.Itoa(rnd.Intn(100)) + long
 		default:
 			a.Firmware = fmt.Sprintf("%d.%d.%d", rnd.Intn(9), rnd.Intn(9), rnd.Intn(99))
 		}
